@@ -193,7 +193,10 @@ func c15Check(env *core.Env, cc core.Case) core.Verdict {
 	if err != nil || total == 0 {
 		return core.Incon("no strace log for %s: %v (exit %d, %s)", c.Cmd, err, r.Exit, tail(r.Stderr, 2))
 	}
-	if r.Class() == sut.ClassFault || r.Class() == sut.ClassTimeout {
+	if r.Class() == sut.ClassTimeout {
+		return core.Incon("watchdog hit, not judged: %s", describe(r))
+	}
+	if r.Class() == sut.ClassFault {
 		return core.Viol("crash:"+c.Cmd, "%v crashed: %s", args, describe(r))
 	}
 	after := sut.Snap(sandbox)
